@@ -211,65 +211,129 @@ theorem members_sound : ∀ (f : Nat) (ts : List Tok) (ms : List M) (r : List To
 
 theorem ppEns_cons_head (x : En) (xs : List En) (X : List Tok) : ∃ r, ppEns (x :: xs) ++ X = .id x.name :: r := ⟨_, rfl⟩
 
-theorem enums_pp : ∀ (es : List En) (rest : List Tok), enums (ppEns es ++ .rb :: rest) = some (es, rest)
-  | [], rest => by simp [ppEns, enums]
-  | ⟨n, v, c⟩ :: [], rest => by
+theorem enums_pp : ∀ (es : List En) (rest : List Tok), sepd es = true → enums (ppEns es ++ .rb :: rest) = some (es, rest)
+  | [], rest, _ => by simp [ppEns, enums]
+  | ⟨n, v, c⟩ :: [], rest, _ => by
     cases v <;> cases c <;> simp [ppEns, ppEn, enums]
-  | ⟨n, v, c⟩ :: x :: xs, rest => by
-    have ih := enums_pp (x :: xs) rest
-    obtain ⟨r, hr⟩ := ppEns_cons_head x xs (.rb :: rest)
-    have e : ppEns (⟨n, v, c⟩ :: x :: xs) ++ .rb :: rest = ppEn ⟨n, v, c⟩ ++ (ppEns (x :: xs) ++ .rb :: rest) := by simp [ppEns]
-    rw [hr] at ih
-    rw [e, hr]
-    cases v <;> cases c <;> simp [ppEn, enums, ih]
+  | ⟨n, v, c⟩ :: x :: xs, rest, h => by
+    simp only [sepd, Bool.and_eq_true] at h
+    obtain ⟨hc, hs⟩ := h
+    have hc' : c = true := hc
+    subst hc' 
+    have ih := enums_pp (x :: xs) rest hs
+    have e : ppEns (⟨n, v, true⟩ :: x :: xs) ++ .rb :: rest = ppEn ⟨n, v, true⟩ ++ (ppEns (x :: xs) ++ .rb :: rest) := by simp [ppEns]
+    rw [e]
+    cases v <;> simp [ppEn, enums, ih]
 
-theorem enums_sound : ∀ (ts : List Tok) (es : List En) (r : List Tok), enums ts = some (es, r) → ts = ppEns es ++ .rb :: r := by
+theorem enums_sound : ∀ (ts : List Tok) (es : List En) (r : List Tok), enums ts = some (es, r) →
+    ts = ppEns es ++ .rb :: r ∧ sepd es = true := by
   intro ts
   induction ts using enums.induct with
-  | case1 r => intro es r0 h; simp only [enums, Option.some.injEq, Prod.mk.injEq] at h; obtain ⟨rfl, rfl⟩ := h; rfl
+  | case1 r => intro es r0 h; simp only [enums, Option.some.injEq, Prod.mk.injEq] at h; obtain ⟨rfl, rfl⟩ := h; exact ⟨rfl, rfl⟩
   | case2 n v r es' r' hrec ih =>
     intro es r0 h
     simp only [enums, hrec, Option.some.injEq, Prod.mk.injEq] at h
     obtain ⟨rfl, rfl⟩ := h
-    rw [ih _ _ hrec]; simp [ppEns, ppEn]
+    obtain ⟨h1, h2⟩ := ih _ _ hrec
+    refine ⟨by rw [h1]; simp [ppEns, ppEn], ?_⟩
+    cases es' with
+    | nil => rfl
+    | cons a b => simpa [sepd] using h2
   | case3 n v r hrec ih => intro es r0 h; simp [enums, hrec] at h
-  | case4 n v r hne es' r' hrec ih =>
-    intro es r0 h
-    have : enums (.id n :: .eq :: .e v :: r) = some (⟨n, some v, false⟩ :: es', r') := by
-      unfold enums; split <;> (try simp_all)
-      rename_i h5a h5b heq5; exact absurd heq5.2.symm (h5a _ _)
-    rw [this] at h
-    simp only [Option.some.injEq, Prod.mk.injEq] at h
-    obtain ⟨rfl, rfl⟩ := h
-    rw [ih _ _ hrec]; simp [ppEns, ppEn]
-  | case5 n v r hne hrec ih =>
-    intro es r0 h
-    have : enums (.id n :: .eq :: .e v :: r) = none := by
-      unfold enums; split <;> (try simp_all)
-      rename_i h5a h5b heq5; exact absurd heq5.2.symm (h5a _ _)
-    rw [this] at h; simp at h
-  | case6 n r es' r' hrec ih =>
+  | case4 n v r => intro es r0 h; simp only [enums, Option.some.injEq, Prod.mk.injEq] at h; obtain ⟨rfl, rfl⟩ := h; exact ⟨by simp [ppEns, ppEn], rfl⟩
+  | case5 n r es' r' hrec ih =>
     intro es r0 h
     simp only [enums, hrec, Option.some.injEq, Prod.mk.injEq] at h
     obtain ⟨rfl, rfl⟩ := h
-    rw [ih _ _ hrec]; simp [ppEns, ppEn]
-  | case7 n r hrec ih => intro es r0 h; simp [enums, hrec] at h
-  | case8 n r h1 h2 h3 es' r' hrec ih =>
-    intro es r0 h
-    have : enums (.id n :: r) = some (⟨n, none, false⟩ :: es', r') := by
-      unfold enums; split <;> simp_all
-    rw [this] at h
-    simp only [Option.some.injEq, Prod.mk.injEq] at h
-    obtain ⟨rfl, rfl⟩ := h
-    rw [ih _ _ hrec]; simp [ppEns, ppEn]
-  | case9 n r h1 h2 h3 hrec ih =>
-    intro es r0 h
-    have : enums (.id n :: r) = none := by
-      unfold enums; split <;> simp_all
-    rw [this] at h; simp at h
-  | case10 t h1 h2 h3 h4 h5 =>
+    obtain ⟨h1, h2⟩ := ih _ _ hrec
+    refine ⟨by rw [h1]; simp [ppEns, ppEn], ?_⟩
+    cases es' with
+    | nil => rfl
+    | cons a b => simpa [sepd] using h2
+  | case6 n r hrec ih => intro es r0 h; simp [enums, hrec] at h
+  | case7 n r => intro es r0 h; simp only [enums, Option.some.injEq, Prod.mk.injEq] at h; obtain ⟨rfl, rfl⟩ := h; exact ⟨by simp [ppEns, ppEn], rfl⟩
+  | case8 t h1 h2 h3 h4 h5 =>
     intro es r0 h
     unfold enums at h
     split at h <;> simp_all
+
+/-- the following tokens do not begin a body -/
+def NoLb : List Tok → Prop
+  | .lb :: _ => False
+  | _ => True
+
+theorem tag_pp (t : T) (rest : List Tok) (f : Nat) (hacc : acc t = true)
+    (hf : ∀ tg ms, t = .su tg ms → ms.length < f) (hrest : (∃ tg, t = .suRef tg ∨ t = .enRef tg) → NoLb rest) :
+    tag f (pp t ++ rest) = some (t, rest) := by
+  cases t with
+  | suRef tg =>
+    have h := hrest ⟨tg, .inl rfl⟩
+    match rest, h with
+    | [], _ => rfl
+    | .lb :: _, h => exact h.elim
+    | .ksu :: _, _ | .kenum :: _, _ | .id _ :: _, _ | .sp _ :: _, _ | .dcl _ :: _, _ | .e _ :: _, _ | .rb :: _, _ | .semi :: _, _
+    | .comma :: _, _ | .colon :: _, _ | .eq :: _, _ => rfl
+  | enRef tg =>
+    have h := hrest ⟨tg, .inr rfl⟩
+    match rest, h with
+    | [], _ => rfl
+    | .lb :: _, h => exact h.elim
+    | .ksu :: _, _ | .kenum :: _, _ | .id _ :: _, _ | .sp _ :: _, _ | .dcl _ :: _, _ | .e _ :: _, _ | .rb :: _, _ | .semi :: _, _
+    | .comma :: _, _ | .colon :: _, _ | .eq :: _, _ => rfl
+  | su tg ms =>
+    have hm := members_pp ms rest f (by simpa [acc] using hacc) (hf tg ms rfl)
+    cases tg with
+    | none => simp only [pp, ppTag, List.nil_append, List.cons_append, List.append_assoc, tag, hm]
+    | some n => simp only [pp, ppTag, List.cons_append, List.nil_append, List.append_assoc, tag, hm]
+  | en tg es =>
+    have he := enums_pp es rest (by simpa [acc] using hacc)
+    cases tg with
+    | none => simp only [pp, ppTag, List.nil_append, List.cons_append, List.append_assoc, tag, he]
+    | some n => simp only [pp, ppTag, List.cons_append, List.nil_append, List.append_assoc, tag, he]
+
+theorem tag_sound (f : Nat) (ts : List Tok) (t : T) (r : List Tok) (h : tag f ts = some (t, r)) : ts = pp t ++ r ∧ acc t = true := by
+  unfold tag at h
+  split at h
+  · split at h
+    · rename_i ms r' hm
+      simp only [Option.some.injEq, Prod.mk.injEq] at h
+      obtain ⟨rfl, rfl⟩ := h
+      obtain ⟨h1, h2, _⟩ := members_sound _ _ _ _ hm
+      exact ⟨by rw [h1]; simp [pp, ppTag], by simpa [acc] using h2⟩
+    · simp at h
+  · split at h
+    · rename_i ms r' hm
+      simp only [Option.some.injEq, Prod.mk.injEq] at h
+      obtain ⟨rfl, rfl⟩ := h
+      obtain ⟨h1, h2, _⟩ := members_sound _ _ _ _ hm
+      exact ⟨by rw [h1]; simp [pp, ppTag], by simpa [acc] using h2⟩
+    · simp at h
+  · simp only [Option.some.injEq, Prod.mk.injEq] at h
+    obtain ⟨rfl, rfl⟩ := h
+    exact ⟨by simp [pp], rfl⟩
+  · split at h
+    · rename_i es r' he
+      simp only [Option.some.injEq, Prod.mk.injEq] at h
+      obtain ⟨rfl, rfl⟩ := h
+      exact ⟨by rw [(enums_sound _ _ _ he).1]; simp [pp, ppTag], by simpa [acc] using (enums_sound _ _ _ he).2⟩
+    · simp at h
+  · split at h
+    · rename_i es r' he
+      simp only [Option.some.injEq, Prod.mk.injEq] at h
+      obtain ⟨rfl, rfl⟩ := h
+      exact ⟨by rw [(enums_sound _ _ _ he).1]; simp [pp, ppTag], by simpa [acc] using (enums_sound _ _ _ he).2⟩
+    · simp at h
+  · simp only [Option.some.injEq, Prod.mk.injEq] at h
+    obtain ⟨rfl, rfl⟩ := h
+    exact ⟨by simp [pp], rfl⟩
+  · simp at h
+
+/-- more fuel never changes an answer of the member loop -/
+theorem members_mono : ∀ (f g : Nat) (ts : List Tok) (x : List M × List Tok), f ≤ g → members f ts = some x → members g ts = some x := by
+  intro f g ts x hfg h
+  obtain ⟨ms, r⟩ := x
+  obtain ⟨h1, h2, h3⟩ := members_sound f ts ms r h
+  rw [h1]
+  exact members_pp ms r g h2 (by omega)
 
 end PsycheModel.TagBody
